@@ -46,7 +46,7 @@ def r_isosteric(ctx: Ctx, model):
     r_isosteric_wrapper(ctx, model)
 
 
-def r_isosteric_wrapper(ctx: Ctx, model):
+def r_isosteric_wrapper(ctx: Ctx, model, prop="C19"):
     """isosteric_enthalpy: column j of the pressure table and temperatures[j] belong to the same isotherm, in any order of the list"""
     ctx.rule("E-isosteric (pairing): isosteric_enthalpy hands isosteric_enthalpy_raw, for every isotherm j, that isotherm's pressures "
              "as column j and that isotherm's temperature as temperatures[j] - for isotherms listed in any temperature order")
@@ -59,13 +59,16 @@ def r_isosteric_wrapper(ctx: Ctx, model):
         return ([S("h0")], [S("s0", real=True)], [S("c0", real=True)], [S("e0")])
     I.overrides[f"{CH}.isosteric_enth.isosteric_enthalpy_raw"] = raw
     temps = [sp.Integer(300), sp.Integer(260), sp.Integer(340)]          # deliberately not sorted
+    acc_calls = []
     for j in range(3):
         kind = f"IsoT{j}"
-        I.libmeth[(kind, "pressure_at")] = (lambda j: lambda I, v, a, k, n: Vec([S(f"pa{j}"), S(f"pb{j}")]))(j)
-        I.libmeth[(kind, "loading")] = (lambda j: lambda I, v, a, k, n: Vec([S(f"la{j}"), S(f"lb{j}")]))(j)
+        I.libmeth[(kind, "pressure_at")] = (lambda j: lambda I, v, a, k, n: (acc_calls.append((j, "pressure_at", dict(k))), Vec([S(f"pa{j}"), S(f"pb{j}")]))[1])(j)
+        I.libmeth[(kind, "loading")] = (lambda j: lambda I, v, a, k, n: (acc_calls.append((j, "loading", dict(k))), Vec([S(f"la{j}"), S(f"lb{j}")]))[1])(j)
+    # the three isotherms are stored in three different representations (same bases, as the function requires)
+    reps = [("absolute", "bar", "mmol", "g"), ("absolute", "Pa", "mol", "kg"), ("relative", None, "mmol", "mg")]
     isos = [Obj(kind=f"IsoT{j}", label=f"iso{j}", attrs={"temperature": temps[j], "material": "M", "loading_basis": "molar", "material_basis": "mass",
-                                                          "loading_unit": "mmol", "material_unit": "g", "pressure_mode": "absolute", "pressure_unit": "bar",
-                                                          "units": {}}) for j in range(3)]
+                                                          "loading_unit": reps[j][2], "material_unit": reps[j][3], "pressure_mode": reps[j][0],
+                                                          "pressure_unit": reps[j][1], "units": {}}) for j in range(3)]
 
     def np_array(I, a, k, n):
         v = a[0]
@@ -85,6 +88,20 @@ def r_isosteric_wrapper(ctx: Ctx, model):
         for j in range(3):
             owner = next((m for m in range(3) if cols[j].items[0] == S(f"pa{m}")), None)
             ok = ok and owner is not None and sp.simplify(sp.sympify(tl[j]) - temps[owner]) == 0
+    # every read of every isotherm is made in ONE representation - that of the first isotherm of the list
+    want = {"pressure_mode": reps[0][0], "pressure_unit": reps[0][1], "loading_unit": reps[0][2], "material_unit": reps[0][3]}
+    bad = []
+    for j, acc, kw_ in acc_calls:
+        keys = ("loading_unit", "material_unit") + (("pressure_mode", "pressure_unit") if acc == "pressure_at" else ())
+        miss = {k_: kw_.get(k_, "<absent>") for k_ in keys if kw_.get(k_, "<absent>") != want[k_]}
+        if miss or kw_.get("branch") != "ads":
+            bad.append(f"iso{j}.{acc}({miss or 'branch=' + str(kw_.get('branch'))})")
+    ctx.ob(bool(acc_calls) and not bad, Finding(f"{prop}.{'E-isosteric' if prop == 'C19' else 'R-pin'}", fi.where, "isosteric_enthalpy|common-representation",
+                                                f"isotherms stored as {reps}: reads not made in the first isotherm's representation {want}: {bad[:4]} - the "
+                                                "pressures of one loading must be comparable across the isotherms"),
+           nontrivial_key=("iso", "representation"))
+    if prop != "C19":
+        return
     ctx.ob(ok, Finding("C19.E-isosteric", fi.where, "isosteric_enthalpy|pairing",
                        f"isotherms at {temps} K (in that order): pressure columns {[str(c.items[0]) for c in cols] if cols else pr!r} are paired with "
                        f"temperatures {tl}: each column must be regressed against its own isotherm's temperature "
@@ -103,8 +120,12 @@ def _r_isosteric_n(ctx: Ctx, model, NT):
     def linregress(I, a, k, n):
         regs.append((a[0], a[1]))
         i = len(regs) - 1
-        return (S(f"slope{i}", real=True), S(f"icpt{i}", real=True), S(f"corr{i}", real=True), S(f"pv{i}", real=True), S(f"se{i}"))
+        vals = (S(f"slope{i}", real=True), S(f"icpt{i}", real=True), S(f"corr{i}", real=True), S(f"pv{i}", real=True), S(f"se{i}"))
+        # scipy returns a result object that unpacks like a 5-tuple and has named fields
+        return Obj(kind="LinregressResult", label=f"fit{i}", attrs=dict(zip(("slope", "intercept", "rvalue", "pvalue", "stderr"), vals), _vals=vals))
     I.ext["scipy.stats.linregress"] = linregress
+    I.libmeth[("LinregressResult", "__iter__")] = lambda I, v, a, k, n: list(v.attrs["_vals"])
+    I.libmeth[("LinregressResult", "__getitem__")] = lambda I, v, a, k, n: v.attrs["_vals"][a[0]] if isinstance(a[0], slice) else v.attrs["_vals"][int(I.to_py(a[0], n))]
     I.ext["numpy.asarray"] = lambda I, a, k, n: Vec([Vec(r) if isinstance(r, list) else r for r in a[0]]) if isinstance(a[0], list) else a[0]
     outs = I.explore(lambda I: (regs.clear(), I.call_func(fi, [[list(r) for r in P], list(T)], {}, None), list(regs))[1:])
     if len(outs) != 1 or outs[0].kind != "ok":
